@@ -89,6 +89,14 @@ MUTANTS = [
      "    # ignore non numeric cells\n    buf = _numerics.__dict__.setdefault('buf', [])\n    buf[:] = flatten(args)\n    args = tuple(buf)\n",
      'SUM & co collect their arguments in a module-global buffer: two threads inside the '
      'helper at once (line granularity)'),
+    ('M29', 'C01', 'excelcompiler.py',
+     "            cell_range.value = data\n            if cell_range.formula and not self.cycles:\n                self._evaluate_referenced_ranges(cell_range)\n",
+     "            cell_range.value = data\n",
+     'an array formula does not calculate the ranges it only refers to (D56 reverted)'),
+    ('M30', 'C05', 'excelcompiler.py',
+     "            self.range_todos = []\n            raise failure\n",
+     "            raise failure\n",
+     'a range whose build failed stays queued (D57 reverted)'),
     ('M14', 'C08', 'excelcompiler.py',
      "                    if child_address in needed_cells or ':' in child_address:\n",
      "                    if child_address in needed_cells and ':' not in child_address:\n",
